@@ -76,6 +76,22 @@ func HarnessC17Paths() {
 	}
 	check(procedureName(method) == "/"+fq+"/"+meth, "the procedure path is /<fully-qualified service>/<method>")
 	check("/"+reflectionName(service)+"/" == "/"+fq+"/", "the mount prefix is /<fully-qualified service>/")
+	// a second service in the same generator run, whose method may carry the
+	// same name: every (service, method) pair gets its own path, and asking
+	// again gives the same answer (the path is emitted three times per method)
+	svc2 := identBytes("service2", 2)
+	meth2 := meth
+	if !nondetBool("sameMethodName") {
+		meth2 = identBytes("method2", 2)
+	}
+	service2 := &protogen.Service{Desc: fakeService{name: protoreflect.Name(svc2), file: fakeFile{pkg: protoreflect.FullName(pkg)}}, GoName: svc2}
+	method2 := &protogen.Method{Desc: fakeMethod{name: protoreflect.Name(meth2)}, GoName: meth2, Parent: service2}
+	fq2 := svc2
+	if pkg != "" {
+		fq2 = pkg + "." + svc2
+	}
+	check(procedureName(method2) == "/"+fq2+"/"+meth2, "a second service's procedure path is its own")
+	check(procedureName(method) == "/"+fq+"/"+meth, "the procedure path is stable across calls")
 }
 
 var goKeywords = []string{"break", "default", "func", "interface", "select", "case", "defer", "go", "map", "struct",
